@@ -1011,7 +1011,7 @@ func init() {
 		CaseTimeout:       -1, // a case is one explorer subprocess (capped by executions; its own deadlock/hang detection applies)
 		Decode:            kit.DecodeAs[C08Case],
 		Rule: "stateless exploration of thread interleavings of the REAL blockstore/storage/deferred code under a controlled scheduler: the current sources are mechanically rewritten (sync -> shim, go -> scheduler threads, send-or-done select -> modelled channel operation, done-or-default select -> modelled poll, accesses of index/writer objects -> happens-before hooks, store-state hooks at the first mention of the typestate flag (or after the first lock call) whose kind is read in a field-assignment-free section under a read lock, a listing-goroutine hook when the goroutine can reach the store; every other non-test file of the go-car v2 module is scanned and the rewrite refuses goroutines, channels, select, sync and sync/atomic outside the rewritten files); " +
-			"every schedule of 32 scenarios (2-4 threads, 1-3 calls each with a scheduling point between the calls of a thread; colliding keys a/a', 3-4 concurrent writers, batches, listing concurrent with puts, finalize/discard/close concurrent with readers and with each other, identity CIDs with StoreIdentityCIDs on/off, a batch refused by MaxIndexCidSize) over every writable front end (blockstore OpenReadWrite new / resumed / OpenReadWriteFile, storage NewReadableWritable / OpenReadableWritable resumed / NewWritable over a plain io.Writer, deferred writer for a path / for a stream) plus read-only views (NewReadOnly, OpenReadOnly with mmap) x the configuration matrix {dedup, AllowDuplicatePuts, UseWholeCIDs, WriteAsCarV1} (4 single-option configurations; thorough: +3 option pairs for the 8 scenarios with colliding puts; stream front ends: the CARv1 ones; identity scenarios: StoreIdentityCIDs x {dup, v1, whole}) is enumerated depth-first with iterative pre-emption bounding (0,1,2; thorough up to 6 or the execution cap, whichever comes first, the completed bound is reported per scenario); " +
+			"every schedule of 35 scenarios (2-4 threads, 1-3 calls each with a scheduling point between the calls of a thread; colliding keys a/a', 3-4 concurrent writers, 2-3 overlapping readers of the same kind (Has || Has, Get || Get, GetSize || GetSize) next to a writer, batches, listing concurrent with puts, finalize/discard/close concurrent with readers and with each other, identity CIDs with StoreIdentityCIDs on/off, a batch refused by MaxIndexCidSize) over every writable front end (blockstore OpenReadWrite new / resumed / OpenReadWriteFile, storage NewReadableWritable / OpenReadableWritable resumed / NewWritable over a plain io.Writer, deferred writer for a path / for a stream) plus read-only views (NewReadOnly, OpenReadOnly with mmap) x the configuration matrix {dedup, AllowDuplicatePuts, UseWholeCIDs, WriteAsCarV1} (4 single-option configurations; thorough: +3 option pairs for the 8 scenarios with colliding puts; stream front ends: the CARv1 ones; identity scenarios: StoreIdentityCIDs x {dup, v1, whole}) is enumerated depth-first with iterative pre-emption bounding (0,1,2; thorough up to 6 or the execution cap, whichever comes first, the completed bound is reported per scenario); " +
 			"per schedule: no panic, no deadlock, vector-clock race check, porcupine linearizability w.r.t. a nondeterministic set model that includes the AllKeysChan call itself (error only if closed), Roots content and the lifecycle (a read of a closed store may fail or be answered correctly, an absent key is reported by any error); listing oracle (nothing never put, nothing more often than put, and every successful uncancelled listing holds every key whose Put returned before the call, whatever is closed meanwhile); final output: strict decode, version = WriteAsCarV1, roots, section multiset = exactly the successful puts (one per distinct key with de-duplication - by whole CID when UseWholeCIDs -, with AllowDuplicatePuts at least one per key put successfully and at most one per put that can have written it, no section of a put that returned an error), index: every record points at the start of a section with that hash and every key of the payload has a record; recorded as beyond-statement outcomes, never violations: read-served-by-closed-store, absent-key-error-is-not-a-not-found-error, allow-duplicate-puts-fewer-copies-than-puts, index-not-one-record-per-section, finalize-on-discarded-store-reported-success (a Finalize not over before the first Discard began, CARv2 header never written: no finalized file to judge); " +
 			"2 informational scenarios outside the statement (consumer of ReadOnly.AllKeysChan calling Get while Close is pending; DeferredCarWriter.OnPut concurrent with Put) are reported as counts, never as violations; " +
 			"states = schedules executed; non-trivial = distinct (scenario, configuration, observable outcome); a free-running -race pass of the same bodies (2-16 goroutines, scenario x reduced configuration matrix) is judged by the race detector and by the same oracles (panic, hang = every unfinished goroutine blocked on a lock/channel in a goroutine dump, linearizability with a 2 s search limit, listing, final output); it is reported separately (race_pass_runs) and is sampling, not the deciding step",
